@@ -181,3 +181,71 @@ Proof. eexists. split; [vm_compute; reflexivity|]. vm_compute. reflexivity. Qed.
 Example C08_extra_text_roundtrip_v3a_secret :
   exists text, key_to_text toy B3A KSecret small48 = Ok text /\ key_from_str toy B3A KSecret text = Ok small48.
 Proof. eexists. split; [vm_compute; reflexivity|]. vm_compute. reflexivity. Qed.
+
+(* ================= C08_reparse / C08_text_roundtrip / premises (added after the first audit) ================= *)
+From PV Require Import KeysProofs2 Text.
+(* the three key shapes where something happens: encode <> id (dalek secret: seed -> seed || pk), decode <> id
+   (P-384 public: a non-canonical input decodes to the canonical point), aws-lc's padded scalar encoder *)
+Example C08_reparse_nonvacuous_v4_secret :
+  exists bs, key_encode toy B4 KSecret seed32 = Ok bs /\ key_decode toy B4 KSecret bs = Ok seed32.
+Proof.
+  apply (C08_reparse toy toy_laws toy_nw toy_tag B4 KSecret (seed32 ++ toy_edpk) seed32); [discriminate|].
+  vm_compute. reflexivity.
+Qed.
+Example C08_reparse_nonvacuous_v4_secret_witness : key_encode toy B4 KSecret seed32 = Ok (seed32 ++ toy_edpk) /\ length (seed32 ++ toy_edpk) = 64.
+Proof. split; vm_compute; reflexivity. Qed.
+Example C08_reparse_nonvacuous_v3_public :
+  key_decode toy B3 KPublic other49 = Ok toy_p384 /\ other49 <> toy_p384 /\
+  exists bs, key_encode toy B3 KPublic toy_p384 = Ok bs /\ key_decode toy B3 KPublic bs = Ok toy_p384.
+Proof.
+  assert (H : key_decode toy B3 KPublic other49 = Ok toy_p384) by (vm_compute; reflexivity).
+  split; [exact H|]. split; [vm_compute; discriminate|].
+  apply (C08_reparse toy toy_laws toy_nw toy_tag B3 KPublic other49 toy_p384); [discriminate|exact H].
+Qed.
+Example C08_reparse_nonvacuous_awslc_secret_sodium_secret_local :
+  (exists bs, key_encode toy B3A KPkeSecret small48 = Ok bs /\ key_decode toy B3A KPkeSecret bs = Ok small48) /\
+  (exists bs, key_encode toy B4S KSecret (seed32 ++ toy_edpk) = Ok bs /\ key_decode toy B4S KSecret bs = Ok (seed32 ++ toy_edpk)) /\
+  (exists bs, key_encode toy B2 KLocal seed32 = Ok bs /\ key_decode toy B2 KLocal bs = Ok seed32).
+Proof.
+  split; [|split].
+  - apply (C08_reparse toy toy_laws toy_nw toy_tag B3A KPkeSecret small48 small48); [discriminate|vm_compute; reflexivity].
+  - apply (C08_reparse toy toy_laws toy_nw toy_tag B4S KSecret (seed32 ++ toy_edpk)); [discriminate|vm_compute; reflexivity].
+  - apply (C08_reparse toy toy_laws toy_nw toy_tag B2 KLocal seed32); [discriminate|vm_compute; reflexivity].
+Qed.
+(* the acceptance hypothesis is used: an object no decoder returns need not re-encode (49-byte aws-lc "scalar") *)
+Example C08_reparse_nonvacuous_hyp_used :
+  ~ exists bs, key_encode toy B3A KSecret (n2b 1 :: zero48) = Ok bs /\ key_decode toy B3A KSecret bs = Ok (n2b 1 :: zero48).
+Proof. intros (bs & H & _). vm_compute in H. discriminate H. Qed.
+(* WEAKER (scope, already visible in the statement): b <> B1 — the RSA keys of paseto-v1 (DER / PEM parsing, the
+   2048 / 4096 bit check) are outside both theorems; with [toy] no v1 key is accepted at all. *)
+Lemma C08_reparse_says_nothing_about_v1 : forall k bs, key_decode toy B1 k bs <> Ok bs \/ k = KLocal.
+Proof. intros k bs. destruct k; [right; reflexivity|left..]; vm_compute; discriminate. Qed.
+
+Example C08_text_roundtrip_nonvacuous :
+  (exists text, key_to_text toy B4 KSecret seed32 = Ok text /\ key_from_str toy B4 KSecret text = Ok seed32) /\
+  (exists text, key_to_text toy B3 KPublic toy_p384 = Ok text /\ key_from_str toy B3 KPublic text = Ok toy_p384) /\
+  (exists text, key_to_text toy B3A KSecret small48 = Ok text /\ key_from_str toy B3A KSecret text = Ok small48) /\
+  (exists text, key_to_text toy B4S KPublic toy_edpk = Ok text /\ key_from_str toy B4S KPublic text = Ok toy_edpk).
+Proof.
+  split; [|split; [|split]].
+  - apply (C08_text_roundtrip toy toy_laws toy_nw toy_tag B4 KSecret (seed32 ++ toy_edpk)); [discriminate|vm_compute; reflexivity].
+  - apply (C08_text_roundtrip toy toy_laws toy_nw toy_tag B3 KPublic other49); [discriminate|vm_compute; reflexivity].
+  - apply (C08_text_roundtrip toy toy_laws toy_nw toy_tag B3A KSecret small48); [discriminate|vm_compute; reflexivity].
+  - apply (C08_text_roundtrip toy toy_laws toy_nw toy_tag B4S KPublic toy_edpk); [discriminate|vm_compute; reflexivity].
+Qed.
+(* the text is a real PASERK string: header, then 86 base64url characters for the 64 encoded bytes *)
+Example C08_text_roundtrip_nonvacuous_text :
+  exists text, key_to_text toy B4 KSecret seed32 = Ok text /\ take 10 text = str "k4.secret." /\ length text = 10 + 86 /\
+               key_from_str toy B4 KSecret text = Ok seed32 /\
+               (* and a different header or a truncated text is refused *)
+               key_from_str toy B2 KSecret text = Err InvalidKey /\
+               is_ok (key_from_str toy B4 KSecret (take 95 text)) = false.
+Proof. eexists. split; [vm_compute; reflexivity|]. repeat split; vm_compute; reflexivity. Qed.
+
+Example C08_premises_satisfiable_nonvacuous :
+  exists O, laws O /\ ed_pk_weak (ed_pk O seed32) = false /\ na_point_valid (ed_pk O seed32) = true /\
+            (forall pk, p384_pk O small48 = Some pk -> compressed_tag pk = true).
+Proof.
+  destruct C08_premises_satisfiable as (O & L & A & B & C & D).
+  exists O. split; [exact L|]. split; [apply A|]. split; [apply B|]. intros pk. apply D.
+Qed.
